@@ -27,7 +27,7 @@ func Base() Profile {
 		"ev:tx": 40, "ev:deliver": 30, "ev:sc": 12, "ev:epoch": 1, "ev:sched": 1, "ev:restart": 0.5, "ev:redeliver": 0.5, "ev:corrupt": 0.5, "ev:upgrade": 0.6,
 		"tx:transfer": 10, "tx:nft": 10, "tx:multi": 10, "tx:mint": 4, "tx:lburn": 3, "tx:burn": 2, "tx:create": 8, "tx:addqty": 3, "tx:nftburn": 3,
 		"tx:adduri": 2, "tx:updattr": 2, "tx:skv": 3, "tx:owner": 2, "tx:claim": 2, "tx:username": 2, "tx:adversarial": 6, "tx:forged": 3,
-		"sc:issue": 6, "sc:setrole": 8, "sc:unsetrole": 2, "sc:freeze": 3, "sc:unfreeze": 3, "sc:wipe": 1.5, "sc:pause": 1.5, "sc:unpause": 2.5, "sc:handover": 3, "sc:drop": 3, "sc:setrole-again": 0.4,
+		"sc:issue": 6, "sc:setrole": 8, "sc:unsetrole": 2, "sc:freeze": 3, "sc:unfreeze": 3, "sc:wipe": 1.5, "sc:pause": 1.5, "sc:unpause": 2.5, "sc:handover": 3, "sc:drop": 3, "sc:setrole-again": 0.4, "sc:forge-control": 1.2,
 		"probe:faults": 0.02, "probe:gas": 0.02, "probe:double": 0.02,
 		"p:fault": 0.02, "p:adv-amount": 0.25, "p:adv-token": 0.08, "p:adv-dest": 0.06, "p:adv-gas": 0.12, "p:call": 0.3, "p:contract-caller": 0.3,
 		"p:epoch-regress": 0.3, "p:sched-invalid": 0.35,
